@@ -320,7 +320,8 @@ def tool_dir(mode):
         return shutil.which(n, path=os.pathsep.join(sysdirs))
 
     real = {"pigz": which("pigz") or which("gzip"), "pbzip2": which("bzip2"), "pzstd": which("zstd")}
-    flags = {"pigz": "-d -k -c", "pbzip2": "-d -k -c", "pzstd": "-f -d -c"}
+    # the zstd stand-in must not get -f: `zstd -f -d -c` copies input that is not a zstd frame through unchanged (pzstd has no such mode)
+    flags = {"pigz": "-d -k -c", "pbzip2": "-d -k -c", "pzstd": "-d -c"}
     last = 'for a; do last="$a"; done\n'
     for n in ("pigz", "pbzip2", "pzstd"):
         if mode == "on" and real[n]:
@@ -687,11 +688,7 @@ class LoopGuard(Exception):
     """raised by the harness when the preparation loop keeps calling download / decompress"""
 
 
-def run_real(W, fmt, spec, plan, ext, P, bundled=False):
-    """runs the real preparator; returns (result string, Net)"""
-    from esrally.track import loader
-    from esrally.utils import io, net
-
+def scripted_net(W, fmt, plan, target_path):
     body_src = (lambda cid, n: W.arch_bytes(fmt, cid, n)) if fmt else W.doc_bytes
     plan_bytes = []
     for a in plan:
@@ -700,7 +697,15 @@ def run_real(W, fmt, spec, plan, ext, P, bundled=False):
         else:
             _, status, cl, cid, chunks, end = a
             plan_bytes.append({"kind": "resp", "status": status, "cl": cl, "chunks": chunk_bytes(body_src(cid, sum(chunks)), chunks), "end": end})
-    fake = Net(plan_bytes, P.target)
+    return Net(plan_bytes, target_path)
+
+
+def run_real(W, fmt, spec, plan, ext, P, bundled=False):
+    """runs the real preparator; returns (result string, Net)"""
+    from esrally.track import loader
+    from esrally.utils import io, net
+
+    fake = scripted_net(W, fmt, plan, P.target)
     dl, dc = loader.Downloader(offline=spec["offline"], test_mode=spec["test_mode"]), loader.Decompressor()
     calls = [0]
 
@@ -791,10 +796,11 @@ def build_world_json(W, fmt, spec, fs, plan, ext, split=None):
                 total = out["ext"][0]
             add_doc(out["cid"], total)
 
-    if fs["doc"] is not None:
-        add_doc(fs["doc"][1], fs["doc"][0])
-    if fs["arch"] is not None:
-        add_arch(fs["arch"][1], fs["arch"][0])
+    for one in (fs if isinstance(fs, list) else [fs]):
+        if one["doc"] is not None:
+            add_doc(one["doc"][1], one["doc"][0])
+        if one["arch"] is not None:
+            add_arch(one["arch"][1], one["arch"][0])
     for a in plan:
         if a[0] == "resp" and a[1] <= 299:
             (add_arch if fmt else add_doc)(a[3], sum(a[4]))
@@ -1307,22 +1313,9 @@ def gen_plan(rng, full, others):
     return [gen_attempt(rng, full, others) for _ in range(rng.choice([1, 1, 2, 3]))]
 
 
-def gen_scenario(rng, bundled=False, fmt_choice=None):
-    wid = pick_world(rng)
-    W = world(wid)
-    fmt = rng.choice(FORMATS + [None, None]) if fmt_choice is None else fmt_choice
+def gen_fs(rng, W, fmt, spec):
+    """an initial state of one data directory"""
     full_arch = W.archive(fmt) if fmt else None
-    real_lines = W.table(0, W.dsize)[1]
-    spec = {
-        "csize": gen_size_decl(rng, len(full_arch), None) if fmt else None,
-        "usize": gen_size_decl(rng, W.dsize, None),
-        "nlines": real_lines if rng.random() < 0.75 else rng.choice([0, real_lines + 1, max(0, real_lines - 1), 7]),
-        "base_url": rng.choice(["http://corpora.example.org/c14", "http://corpora.example.org/c14/", "https://corpora.example.org/x"]) if rng.random() < 0.85 else rng.choice([None, ""]),
-        "offline": rng.random() < 0.07,
-        "test_mode": rng.random() < 0.2,
-    }
-    if spec["test_mode"] and rng.random() < 0.7:
-        spec["csize"] = spec["usize"] = None  # what the loader does in test mode
     clock = [rng.randrange(0, 5)]
 
     def mt():
@@ -1344,6 +1337,26 @@ def gen_scenario(rng, bundled=False, fmt_choice=None):
     if rng.random() < 0.12:  # left by a crash inside an earlier table build (or anything else under that name)
         fs["offtmp"] = gen_off(rng, W, fs["doc"], mt)
     fs["clock"] = max([clock[0]] + [f[-1] for f in (fs["doc"], fs["arch"], fs["tmp"], fs["off"], fs["offtmp"]) if f is not None]) + 1
+    return fs
+
+
+def gen_scenario(rng, bundled=False, fmt_choice=None):
+    wid = pick_world(rng)
+    W = world(wid)
+    fmt = rng.choice(FORMATS + [None, None]) if fmt_choice is None else fmt_choice
+    full_arch = W.archive(fmt) if fmt else None
+    real_lines = W.table(0, W.dsize)[1]
+    spec = {
+        "csize": gen_size_decl(rng, len(full_arch), None) if fmt else None,
+        "usize": gen_size_decl(rng, W.dsize, None),
+        "nlines": real_lines if rng.random() < 0.75 else rng.choice([0, real_lines + 1, max(0, real_lines - 1), 7]),
+        "base_url": rng.choice(["http://corpora.example.org/c14", "http://corpora.example.org/c14/", "https://corpora.example.org/x"]) if rng.random() < 0.85 else rng.choice([None, ""]),
+        "offline": rng.random() < 0.07,
+        "test_mode": rng.random() < 0.2,
+    }
+    if spec["test_mode"] and rng.random() < 0.7:
+        spec["csize"] = spec["usize"] = None  # what the loader does in test mode
+    fs = gen_fs(rng, W, fmt, spec)
     plan = gen_plan(rng, full_arch if fmt else W.doc, W.arch_others[fmt] if fmt else {1: W.doc_others[1], 2: W.doc_others[2]})
     ext = rng.choice(["off", "on", "on", "fail", "failfull", "failfull"]) if fmt in MANUAL else "off"
     return {"world": wid, "fmt": fmt, "spec": spec, "fs": fs, "plan": plan, "ext": ext, "bundled": bundled}
@@ -1499,6 +1512,317 @@ def run_history(ctx, case):
             base += 1_000_000
             restamp(P, state, base)
         ctx.count("history:len-%d" % len(case["steps"]))
+    finally:
+        shutil.rmtree(root, ignore_errors=True)
+
+
+# ---------------------------------------------------------------------------------------------
+# the caller: DefaultTrackPreparator.on_prepare_track / prepare_docs with one or two data directories, then
+# loader.set_absolute_data_path: the file the challenge will read must be the verified one
+# ---------------------------------------------------------------------------------------------
+EMPTY_FS = {"doc": None, "arch": None, "tmp": None, "off": None, "offtmp": None, "clock": 1}
+
+
+def gen_docs(ctx):
+    rng = ctx.rng
+    for _ in range(ctx.budget):
+        sc = gen_scenario(rng)
+        W = world(sc["world"])
+        fmt, spec = sc["fmt"], sc["spec"]
+        two = rng.random() < 0.75
+        sc["two_roots"] = two
+        sc["fs_corpus"] = sc.pop("fs")
+        sc["fs_track"] = gen_fs(rng, W, fmt, spec) if two else dict(EMPTY_FS)
+        if two and rng.random() < 0.5:
+            # the corpus directory can provide the data (complete archive / document cached there, or a good download)
+            full = W.archive(fmt) if fmt else W.doc
+            if rng.random() < 0.5:
+                sc["fs_corpus"]["arch" if fmt else "doc"] = [len(full), 0, 1]
+                sc["fs_corpus"]["clock"] = max(sc["fs_corpus"]["clock"], 2)
+            else:
+                sc["plan"] = [gen_attempt(rng, full, {}, "good")]
+                spec["base_url"], spec["offline"] = "http://corpora.example.org/c14", False
+            spec["nlines"] = W.table(0, W.dsize)[1]
+            for k in ("csize", "usize"):
+                real = (len(W.archive(fmt)) if fmt else None) if k == "csize" else W.dsize
+                if spec[k] is not None and spec[k] != real:
+                    spec[k] = real
+        yield sc
+
+
+def run_docs(ctx, case):
+    import copy
+
+    from esrally import config
+    from esrally.track import loader, track
+    from esrally.utils import net
+
+    W = world(case["world"])
+    fmt, spec, two, ext = case["fmt"], case["spec"], case["two_roots"], case["ext"]
+    if fmt:
+        W.archive(fmt)
+    plan = [list(a) for a in case["plan"]]
+    fsT, fsC = case["fs_track"], case["fs_corpus"]
+    root = tempfile.mkdtemp(prefix="c14-docs-")
+    try:
+        track_dir, cache = os.path.join(root, "c14track"), os.path.join(root, "cache")
+        Pt, Pc = Paths(track_dir, fmt), Paths(os.path.join(cache, "c14corpus"), fmt)
+        os.makedirs(Pt.root)
+        os.makedirs(Pc.root)
+        with open(os.path.join(track_dir, "track.json"), "w") as f:
+            f.write("{}")
+        materialise(W, fmt, fsT, Pt)
+        materialise(W, fmt, fsC, Pc)
+        wait_for_driver(ctx)
+        m = ctx.model("corpus", "prepare_docs", {"world": build_world_json(W, fmt, spec, [fsT, fsC], plan, ext), "spec": spec_json(spec, fmt),
+                                                 "fs_track": fsT, "fs_corpus": fsC, "two_roots": two, "plan": plan_json(plan)})
+        if "r" not in m:
+            raise HarnessError("model error: " + json.dumps(m)[:300])
+        cfg = config.Config()
+        if two:
+            cfg.add(config.Scope.application, "track", "track.path", track_dir)
+        cfg.add(config.Scope.application, "benchmarks", "local.dataset.cache", cache)
+        ds = make_docs(spec, fmt)
+        ds.target_index = "c14idx"
+        corpus = track.DocumentCorpus("c14corpus", [ds])
+        op = track.Operation("bulk", track.OperationType.Bulk.to_hyphenated_string(), params={"bulk-size": 5})
+        t = track.Track(name="c14track", corpora=[corpus], challenges=[track.Challenge("c", default=True, schedule=[track.Task("bulk", op)])],
+                        indices=[track.Index("c14idx")])
+        dtp = loader.DefaultTrackPreparator()
+        dtp.cfg = cfg
+        dtp.downloader, dtp.decompressor = loader.Downloader(offline=spec["offline"], test_mode=spec["test_mode"]), loader.Decompressor()
+        calls = [0]
+        real_download = dtp.downloader.download
+
+        def guarded(*a, **k):
+            calls[0] += 1
+            if calls[0] > 8:
+                raise LoopGuard()
+            return real_download(*a, **k)
+
+        dtp.downloader.download = guarded
+        fake = scripted_net(W, fmt, plan, Pc.target)
+        kwd = dict(net.download_http.__kwdefaults__ or {})
+        kwd["sleep"] = lambda s_: None
+        obs0 = {"track": observe(Pt), "corpus": observe(Pc)}
+        t_run = time.time_ns() - 5_000_000_000
+        resolved_path = None
+        with mock.patch.object(net, "_request", fake), mock.patch.object(net.download_http, "__kwdefaults__", kwd), \
+                mock.patch.dict(os.environ, {"PATH": path_env(ext)}), warnings.catch_warnings():
+            warnings.simplefilter("ignore")
+            try:
+                if spec["nlines"] > 0:
+                    for fn, params in dtp.on_prepare_track(t, None):
+                        fn(**params)
+                else:
+                    # a corpus that declares zero documents is not "used" by any bulk task (used_corpora): call what
+                    # on_prepare_track would yield directly
+                    loader.DefaultTrackPreparator.prepare_docs(cfg, t, corpus, loader.DocumentSetPreparator(t.name, dtp.downloader, dtp.decompressor))
+                res = "ok"
+                rt = copy.deepcopy(t)
+                loader.set_absolute_data_path(cfg, rt)  # what Rally does right after preparation
+                resolved_path = rt.corpora[0].documents[0].document_file
+            except LoopGuard:
+                res = "DOES-NOT-TERMINATE"
+            except Exception as e:  # noqa
+                res = classify_exception(e, Pt if (two and str(Pt.root) in str(getattr(e, "message", e))) else Pc)
+        obs = {"track": observe(Pt), "corpus": observe(Pc)}
+        if m["r"]["res"] != res:
+            ctx.diff("prepare_docs result", m["r"]["res"], res)
+        compare_state(ctx, "prepare_docs track directory", W, fmt, m["r"]["fs_track"], obs["track"], fsT["clock"], t_run)
+        compare_state(ctx, "prepare_docs corpus directory", W, fmt, m["r"]["fs_corpus"], obs["corpus"], fsC["clock"], t_run)
+        which = None
+        if res == "ok":
+            which = "track" if (resolved_path and os.path.dirname(resolved_path) == Pt.root) else "corpus" if (resolved_path and os.path.dirname(resolved_path) == Pc.root) else "none"
+            if m["r"]["resolved"] != which:
+                ctx.diff("directory the document file is resolved to", m["r"]["resolved"], which)
+            # direct oracle: the file the challenge will read is the verified one, with a valid table next to it
+            if which == "none":
+                ctx.fail("prepared-but-no-document-file-resolvable", "prepare_docs returned but set_absolute_data_path finds no document file", None, None)
+            else:
+                Pr, fs0r = (Pt, fsT) if which == "track" else (Pc, fsC)
+                other = "corpus" if which == "track" else "track"
+                data = obs[which]["doc"][0]
+                unverified = data != W.doc or obs[which]["off"] is None or bool(table_positions_ok(Pr, data, spec["nlines"]))
+                prepared_elsewhere = obs[other]["doc"] is not None and obs[other]["doc"] != obs0[other]["doc"]
+                if unverified and prepared_elsewhere:
+                    ctx.fail("resolved-document-file-is-not-the-one-that-was-prepared",
+                             "prepare_docs prepared the document file in the %s directory but the challenge reads the unverified one in the %s directory" % (other, which),
+                             {"resolved file": "published content, declared size, valid offset table"},
+                             {"resolved": resolved_path, "size": len(data), "declared": spec["usize"], "lines": count_lines(data), "declared lines": spec["nlines"],
+                              "offset table present": obs[which]["off"] is not None})
+                else:
+                    oracle(ctx, W, fmt, spec, fs0r, plan, res, obs0[which], obs[which], fake, Pr, origin="resolved to the %s directory: " % which)
+        elif res == "DOES-NOT-TERMINATE":
+            ctx.fail("does-not-terminate", "prepare_docs keeps downloading", None, res)
+        elif not EXPLICIT.match(res):
+            ctx.fail("non-explicit-error", "prepare_docs failed with something that is not an explicit error", "explicit error class", res)
+        ctx.sig([m.get("tags"), res.split("-status-")[0], two, which, "manual" if fmt in MANUAL else "member" if fmt else "none",
+                 state_class(W, fmt, spec, fsT)[:2], state_class(W, fmt, spec, fsC)[:2]])
+        ctx.count("docs:" + ("two-roots" if two else "one-root"))
+        ctx.count("docs:res:" + res.split(":")[0])
+        if which:
+            ctx.count("docs:resolved:" + which)
+    finally:
+        shutil.rmtree(root, ignore_errors=True)
+
+
+# ---------------------------------------------------------------------------------------------
+# the reader side of the offset table across re-preparations in ONE process: io.skip_lines (plain file and
+# io.MmapSource) must position at the true byte of that line in the CURRENT file, whatever was prepared / read before
+# ---------------------------------------------------------------------------------------------
+def make_edition(seed, nlines):
+    rng = random.Random("c14-edition-%s" % seed)
+    pad = rng.randrange(0, 40)
+    lines = []
+    for i in range(nlines):
+        lines.append('{"id":%d,"e":"%s","p":"%s"}\n' % (i, seed, "x" * ((i * 7 + pad) % (pad + 3))))
+    data = "".join(lines).encode("utf-8")
+    starts = [0]
+    pos = 0
+    for ln in lines:
+        pos += len(ln)
+        starts.append(pos)
+    return data, starts
+
+
+def gen_reader(ctx):
+    rng = ctx.rng
+    for _ in range(ctx.budget):
+        n_ed = rng.choice([2, 2, 3])
+        editions = [[rng.randrange(10 ** 6), rng.choice([49999, 50000, 50001, 60000, 100000, 100001, 120000])] for _ in range(n_ed)]
+        fmt = rng.choice([None, "gz", "zst", "zip", "tar"])
+        ops = [["install", 0, "fresh"], ["prepare"], ["read"]]
+        for _k in range(rng.choice([2, 3, 4])):
+            r = rng.random()
+            if r < 0.6:
+                ops += [["install", rng.randrange(n_ed), rng.choice(["archive", "document", "both"]) if fmt else "document"], ["prepare"], ["read"]]
+            elif r < 0.75:
+                ops += [["touch"], ["prepare"], ["read"]]
+            elif r < 0.9:
+                ops += [["rmtable"], ["read"], ["prepare"], ["read"]]
+            else:
+                ops += [["read"]]
+        yield {"editions": editions, "fmt": fmt, "declare": rng.random() < 0.7, "ops": ops, "targets_seed": rng.randrange(10 ** 6), "ext": rng.choice(["off", "on"])}
+
+
+def run_reader(ctx, case):
+    from esrally.track import loader, track
+    from esrally.utils import io
+
+    fmt = case["fmt"]
+    eds = [make_edition(seed, n) for seed, n in case["editions"]]
+    trng = random.Random(case["targets_seed"])
+    root = tempfile.mkdtemp(prefix="c14-read-")
+    try:
+        P = Paths(root, fmt)
+        cur = None  # edition whose bytes are in the document file
+        want = None  # edition the track currently declares
+        prepared = False
+        reads = mism = 0
+        prep = loader.DocumentSetPreparator("c14-track", loader.Downloader(offline=True, test_mode=False), loader.Decompressor())
+
+        def age():
+            for fn in os.listdir(root):
+                st = os.stat(os.path.join(root, fn))
+                os.utime(os.path.join(root, fn), ns=(st.st_mtime_ns - 10 ** 10, st.st_mtime_ns - 10 ** 10))
+
+        for op in case["ops"]:
+            if op[0] == "install":
+                age()
+                want = op[1]
+                data = eds[want][0]
+                how = op[2] if fmt else "document"
+                if how in ("fresh", "archive", "both"):
+                    with open(P.arch if fmt else P.doc, "wb") as f:
+                        f.write(_archive(fmt, data) if fmt else data)
+                    if not fmt:
+                        cur = want
+                if how in ("document", "both") and fmt:
+                    with open(P.doc, "wb") as f:
+                        f.write(data)
+                    cur = want
+                    if how == "document":  # keep the archive consistent with what the track declares
+                        with open(P.arch, "wb") as f:
+                            f.write(_archive(fmt, data))
+                prepared = False
+            elif op[0] == "touch":
+                age()
+                if os.path.exists(P.doc):
+                    os.utime(P.doc, None)
+                prepared = False
+            elif op[0] == "rmtable":
+                if os.path.exists(P.off):
+                    os.remove(P.off)
+            elif op[0] == "prepare":
+                data = eds[want][0]
+                arch_size = os.path.getsize(P.arch) if fmt and os.path.exists(P.arch) else None
+                ds = track.Documents("bulk", document_file=DOC, document_archive=(DOC + "." + fmt) if fmt else None, base_url=None,
+                                     number_of_documents=len(eds[want][1]) - 1,
+                                     compressed_size_in_bytes=arch_size if case["declare"] else None,
+                                     uncompressed_size_in_bytes=len(data) if case["declare"] else None)
+                with mock.patch.dict(os.environ, {"PATH": path_env(case["ext"])}), warnings.catch_warnings():
+                    warnings.simplefilter("ignore")
+                    try:
+                        prep.prepare_document_set(ds, root)
+                        prepared = True
+                    except Exception as e:  # noqa
+                        prepared = False
+                        ctx.count("reader:prepare-raised:" + classify_exception(e, P).split(":")[0])
+                if prepared:
+                    on_disk = read_or_none(P.doc)
+                    cur = next((k for k, (d, _s) in enumerate(eds) if d == on_disk), None)
+            elif op[0] == "read":
+                on_disk = read_or_none(P.doc)
+                if on_disk is None:
+                    continue
+                k = next((i for i, (d, _s) in enumerate(eds) if d == on_disk), None)
+                if k is None:
+                    continue
+                starts = eds[k][1]
+                total = len(starts) - 1
+                targets = sorted(set(x for x in [0, 1, 49999, 50000, 50001, 99999, 100000, 100001, total - 1, total,
+                                                 trng.randrange(0, total + 1), trng.randrange(0, total + 1)] if 0 <= x <= total))
+                for n in targets:
+                    exp_next = on_disk[starts[n]:starts[n + 1]] if n < total else b""
+                    try:
+                        with open(P.doc, "rb") as f:
+                            io.skip_lines(P.doc, f, n)
+                            got = f.tell()
+                        src = io.MmapSource(P.doc, "rt").open()
+                        try:
+                            io.skip_lines(P.doc, src, n)
+                            nxt = src.readline()
+                        finally:
+                            src.close()
+                    except Exception as e:  # e.g. seek beyond the end of the file
+                        got, nxt = "raises " + type(e).__name__, b""
+                    reads += 1
+                    if got != starts[n] or nxt != exp_next:
+                        mism += 1
+                        if mism <= 1:
+                            table_now = read_or_none(P.off)
+                            table_true = table_for(on_disk)[0]
+                            st_doc = os.stat(P.doc)
+                            if table_now is not None and table_now != table_true:
+                                # the table ON DISK does not belong to the current file: a preparation-side cause
+                                if fmt in TAR_FAMILY and st_doc.st_mtime_ns == BASE * 1_000_000_000 and os.stat(P.off).st_mtime_ns >= st_doc.st_mtime_ns and prepared:
+                                    cls = "stale-offset-table-kept-because-tar-extraction-restores-mtime"
+                                elif prepared:
+                                    cls = "inside-hypotheses:offset-table-inconsistent"
+                                else:
+                                    cls = None  # the file was changed and not prepared again: nothing is promised
+                                    ctx.count("reader:excluded:not-prepared-since-change")
+                            else:
+                                cls = "reader-positioned-at-wrong-byte"  # the table on disk is right (or absent): the reader side is wrong
+                            if cls:
+                                ctx.fail(cls, "io.skip_lines positions the reader at another byte than skipping lines one by one in the current document file",
+                                         {"line": n, "byte": starts[n]}, {"io.skip_lines (file)": got, "next line via MmapSource": repr(nxt[:50]),
+                                                                          "expected next line": repr(exp_next[:50]), "prepared since last change": prepared,
+                                                                          "offset table on disk": (table_now or b"")[:80].decode("ascii", "replace"),
+                                                                          "table of the current file": table_true[:80].decode("ascii", "replace")})
+        ctx.sig([fmt, case["declare"], [o[0] + (":" + str(o[2]) if o[0] == "install" else "") for o in case["ops"]][:12], [n for _s, n in case["editions"]]], nontrivial=reads > 0)
+        ctx.count("reader:reads", reads)
     finally:
         shutil.rmtree(root, ignore_errors=True)
 
@@ -1835,6 +2159,8 @@ STREAMS = [
     Stream("prepare_states", gen_prepare, run_scenario, quick=960, thorough=20000, shards=16),
     Stream("prepare_bundled", gen_bundled, run_scenario, quick=240, thorough=4000, shards=8),
     Stream("histories", gen_history, run_history, quick=640, thorough=12000, shards=16),
+    Stream("prepare_docs", gen_docs, run_docs, quick=640, thorough=12000, shards=16),
+    Stream("reader_histories", gen_reader, run_reader, quick=48, thorough=600, shards=16),
     Stream("net_download", gen_download, run_download, quick=1200, thorough=30000, shards=8),
     Stream("crash_then_rerun", gen_crash, run_crash, quick=480, thorough=10000, shards=16),
 ]
